@@ -146,6 +146,14 @@ def r1(ctx, st):
         closed = SLOT % 'connection_closed' in calls
         tdisc = calls.count('qb_ipcs_funcs::disconnect')
         unref = 'qb_ipcs_connection_unref' in calls
+        if short in ('ACTIVE', 'ESTABLISHED'):
+            # the transport's disconnect decides by the state what there is to release: it is called while the state is still the one
+            # the connection was in (for INACTIVE it releases nothing but the directory)
+            seen = [env.get(sv) for (ev, env) in visits if ev.kind == 'CALL' and ev.callee == 'qb_ipcs_funcs::disconnect']
+            ctx.check('R1', 'disconnect:%s-transport-sees-the-state' % short, bool(seen) and all(x == val for x in seen), d,
+                      'the transport disconnect runs while the state is still %s' % short,
+                      'the transport disconnect is called after the state was changed (it sees %s): it releases what belongs to that state, not the sockets, dispatch '
+                      'entries and rings of a %s connection - they are never released' % (sorted({str(x) for x in seen}), short))
         if short == 'INACTIVE':
             ctx.check('R1', 'disconnect:INACTIVE-no-effect', not closed and not tdisc and not unref, d, 'disconnecting an INACTIVE connection does nothing',
                       'disconnecting an INACTIVE connection has effects (double teardown)')
